@@ -56,3 +56,5 @@ mod c20;
 mod c06;
 #[cfg(kani)]
 mod c01;
+#[cfg(kani)]
+mod c34;
